@@ -42,14 +42,17 @@ CONSTANTS Ops,       \* operator names explored
           SpecTs,    \* ... and its offset
           Hz,        \* horizon: the run is observed through instant Hz (inclusive)
           DispOps,   \* for these operators the dispose instant ranges over 0..Hz-1 as well as "never" ...
-          DispLen    \* ... on timelines of at most this many elements
+          DispLen,   \* ... on timelines of at most this many elements
+          EchoOps,   \* feedback: for these operators (emission driven by a timer / the sampler, not by the source) the sink,
+          EchoKs     \* on receiving its k-th element (k in EchoKs), synchronously pushes ONE more element into the (hot) source
 
-VARIABLES op, par, src, term, tT, hot, aux, aterm, aT, dsp, ctk,   \* the scenario (ctk: resolution of a silence of the statement)
+VARIABLES op, par, src, term, tT, hot, aux, aterm, aT, dsp, fbk, ctk,   \* the scenario (ctk: resolution of a silence of the statement)
           now, i, subAt, closed, unsub, j, swAt, tm, st, out, done,
+          echoAt, \* instant at which the sink pushed the feedback element (index n + 1) into the source; -1: not (yet)
           amb     \* history: some step so far had a choice between lanes (a simulated behaviour is then ONE of several)
 
-scnvars == <<op, par, src, term, tT, hot, aux, aterm, aT, dsp, ctk>>
-vars == <<op, par, src, term, tT, hot, aux, aterm, aT, dsp, ctk, now, i, subAt, closed, unsub, j, swAt, tm, st, out, done, amb>>
+scnvars == <<op, par, src, term, tT, hot, aux, aterm, aT, dsp, fbk, ctk>>
+vars == <<op, par, src, term, tT, hot, aux, aterm, aT, dsp, fbk, ctk, now, i, subAt, closed, unsub, j, swAt, tm, st, out, done, echoAt, amb>>
 
 Max2(a, b) == IF a >= b THEN a ELSE b
 Min2(a, b) == IF a <= b THEN a ELSE b
@@ -208,18 +211,21 @@ Init == /\ op \in Ops
         /\ src \in TimeSeqs(LenOf(op), Lo, TOf(op))
         /\ term \in Terms
         /\ tT \in (IF term = "U" THEN {0} ELSE LastOf(src, Lo)..TOf(op))
-        /\ par \in ParamsOf(op, Len(src))
+        \* feedback on timelines that leave room for one more element (which needs its own throttle-observable spec);
+        \* not combined with the dispose dimension
+        /\ fbk \in (IF op \in EchoOps /\ Len(src) < LenOf(op) THEN EchoKs ELSE {}) \cup {0}
+        /\ par \in ParamsOf(op, Len(src) + (IF fbk > 0 /\ op \in MapOps THEN 1 ELSE 0))
         /\ hot \in (IF op \in HotOps THEN BOOLEAN ELSE {FALSE})
         \* sampler timelines start at 1; fallback timelines are cold and may start at offset 0
         /\ aux \in (IF op = "sample_obs" THEN TimeSeqs(AuxLen, 1, TOf(op)) ELSE IF op \in FbOps THEN TimeSeqs(AuxLen, 0, TOf(op)) ELSE {<<>>})
         /\ aterm \in (IF op \in AuxOps THEN Terms ELSE {"U"})
         /\ aT \in (IF aterm = "U" THEN {0} ELSE LastOf(aux, IF op = "sample_obs" THEN 1 ELSE 0)..TOf(op))
-        /\ dsp \in (IF op \in DispOps /\ Len(src) <= DispLen THEN 0..(Hz - 1) ELSE {}) \cup {NEVER}
+        /\ dsp \in (IF op \in DispOps /\ Len(src) <= DispLen /\ fbk = 0 THEN 0..(Hz - 1) ELSE {}) \cup {NEVER}
         /\ ctk \in (IF op = "sample_obs" /\ aterm = "C" THEN BOOLEAN ELSE {TRUE})
         /\ LET r == Start(op, par) IN
            /\ st = r.st /\ tm = r.tm /\ out = Stamp(r.em, 0) /\ done = r.fin
            /\ subAt = IF r.ctl = "nosub" THEN NOSUB ELSE 0
-        /\ now = 0 /\ i = 0 /\ j = 0 /\ closed = FALSE /\ unsub = NEVER /\ swAt = NOSUB
+        /\ now = 0 /\ i = 0 /\ j = 0 /\ closed = FALSE /\ unsub = NEVER /\ swAt = NOSUB /\ echoAt = NOSUB
         /\ amb = (op = "sample_obs" /\ aterm = "C")
 
 SrcLen == n + (IF term = "U" THEN 0 ELSE 1)
@@ -238,6 +244,16 @@ Live(md) == ~done /\ md <= Hz /\ md <= dsp
 
 Apply(r, t) == /\ st' = r.st /\ tm' = r.tm /\ out' = out \o Stamp(r.em, t) /\ done' = r.fin /\ now' = t
 
+\* Feedback.  The reaction r of a timer / sampler lane hands the sink its fbk-th element; the sink, inside that very call,
+\* pushes element n + 1 into the source (ignored if the source already terminated or is not subscribed).  The element
+\* arrives at the same instant, causally AFTER the emission that provoked it and before anything else.
+EchoHit(r) == /\ fbk > 0 /\ echoAt < 0 /\ ~closed /\ subAt >= 0 /\ ~r.fin
+              /\ \E h \in 1..Len(r.em) : r.em[h].k = "N"
+              /\ Len(SelectSeq(out, LAMBDA x : x.k = "N")) + 1 = fbk
+WithEcho(r, t) == IF EchoHit(r)
+                  THEN LET r2 == Nx(op, par, r.st, r.tm, t, n + 1) IN [r EXCEPT !.st = r2.st, !.tm = r2.tm, !.em = r.em \o r2.em, !.fin = r2.fin]
+                  ELSE r
+
 FireSrc(md) ==
            /\ SrcOn /\ SrcDue = md
            /\ i' = i + 1
@@ -249,18 +265,20 @@ FireSrc(md) ==
                    /\ closed' = (i + 1 > n \/ r.fin)
                    /\ unsub' = IF i + 1 > n \/ r.fin THEN md ELSE unsub
                    /\ UNCHANGED <<subAt, j, swAt>>
-           /\ UNCHANGED scnvars
+           /\ UNCHANGED echoAt /\ UNCHANGED scnvars
 
 FireAux(md) ==
            /\ AuxOn /\ AuxDue = md
            /\ j' = j + 1
            /\ LET k == IF j + 1 <= Len(aux) THEN "N" ELSE aterm
-                  r == IF op = "sample_obs" THEN Ax(op, par, st, tm, md, k)
+                  r0 == IF op = "sample_obs" THEN Ax(op, par, st, tm, md, k)
                        ELSE \* the fallback's notifications pass through
                             CASE k = "N" -> R(st, <<N(100 + j + 1, 0)>>, FALSE, tm, "")
                               [] k = "C" -> R(st, <<Cn>>, TRUE, <<>>, "")
-                              [] OTHER   -> R(st, <<Er("aux")>>, TRUE, <<>>, "") IN
+                              [] OTHER   -> R(st, <<Er("aux")>>, TRUE, <<>>, "")
+                  r == WithEcho(r0, md) IN
               /\ Apply(r, md)
+              /\ echoAt' = IF EchoHit(r0) THEN md ELSE echoAt
               /\ closed' = (closed \/ r.fin)
               /\ unsub' = IF ~closed /\ r.fin THEN md ELSE unsub
            /\ UNCHANGED <<i, subAt, swAt>> /\ UNCHANGED scnvars
@@ -268,8 +286,10 @@ FireAux(md) ==
 FireTimer(md) == \E h \in 1..Len(tm) :
            /\ tm[h].due = md
            /\ Fifo(op) => \A g \in 1..(h - 1) : tm[g].due # md
-           /\ LET r == Ti(op, par, st, RemoveAt(tm, h), md, tm[h]) IN
+           /\ LET r0 == Ti(op, par, st, RemoveAt(tm, h), md, tm[h])
+                  r == WithEcho(r0, md) IN
               /\ Apply(r, md)
+              /\ echoAt' = IF EchoHit(r0) THEN md ELSE echoAt
               /\ subAt' = IF r.ctl = "sub" THEN md ELSE subAt
               /\ swAt' = IF r.ctl = "switch" THEN md ELSE swAt
               /\ closed' = (closed \/ r.fin \/ r.ctl = "switch")
@@ -280,7 +300,7 @@ Dispose(md) ==
            /\ ~done /\ dsp # NEVER /\ md > dsp
            /\ done' = TRUE /\ closed' = TRUE
            /\ unsub' = IF ~closed /\ subAt >= 0 THEN dsp ELSE unsub
-           /\ UNCHANGED <<now, i, subAt, j, swAt, tm, st, out, amb>> /\ UNCHANGED scnvars
+           /\ UNCHANGED <<now, i, subAt, j, swAt, tm, st, out, echoAt, amb>> /\ UNCHANGED scnvars
 
 \* number of lanes that may move at instant md
 Choices(md) == (IF SrcOn /\ SrcDue = md THEN 1 ELSE 0) + (IF AuxOn /\ AuxDue = md THEN 1 ELSE 0)
@@ -309,7 +329,8 @@ Grammar == \A h \in 1..Len(out) : out[h].k # "N" => h = Len(out)
 \* virtual time never runs backwards in the output
 Causal == \A h \in 1..(Len(out) - 1) : out[h].t <= out[h + 1].t
 \* nothing is emitted before the element it comes from arrived, or after the subscriber disposed
-NotEarly == \A h \in 1..mN : OutN[h].i <= n => OutN[h].t >= (IF hot \/ subAt < 0 THEN 0 ELSE subAt) + src[OutN[h].i]
+NotEarly == \A h \in 1..mN : /\ (OutN[h].i <= n => OutN[h].t >= (IF hot \/ subAt < 0 THEN 0 ELSE subAt) + src[OutN[h].i])
+                              /\ (OutN[h].i = n + 1 => (echoAt >= 0 /\ OutN[h].t >= echoAt))
 Silent == \A h \in 1..Len(out) : out[h].t <= dsp
 \* C02/C03: once the sink terminated or disposed, the source subscription is closed
 Released == done => (subAt < 0 \/ closed)
@@ -529,10 +550,47 @@ Ref ==
     [] op \in {"timeout_abs", "timeout_abs_other"} -> RefTimeoutAbs
     [] op \in {"timeout_with_mapper", "timeout_with_mapper_other"} -> ((\A ix \in 1..n : par.m[ix].k # "X") => RefTimeoutMap)
     [] OTHER -> TRUE
-RefOK == (Final /\ dsp = NEVER) => Ref
+\* (the references speak about the timeline's own elements: they are checked on the behaviours without a feedback element;
+\*  what must happen to the feedback element is EchoOK)
+RefOK == (Final /\ dsp = NEVER /\ echoAt < 0) => Ref
+
+\* ---- feedback element: pushed at instant te = echoAt, causally after the emission of that instant ---------------------
+Echo == n + 1
+\* sample: it has not been sampled yet, so the NEXT tick must emit it - unless a newer element arrives first, or the source
+\* fails / the result ends first.  Several sampler notifications at te itself, or source elements at te (they may have
+\* arrived before the tick or after the feedback), leave it open.
+TicksAt(t) == IF op = "sample" THEN 1
+              ELSE Cardinality({h \in 1..Len(aux) : aux[h] = t}) + (IF aterm = "C" /\ aT = t THEN 1 ELSE 0)
+EchoSampleMust(u) == /\ u \in TicksMust /\ u > echoAt /\ TicksAt(echoAt) = 1 /\ LiveMust(u)
+                     /\ ~\E w \in TicksMay : echoAt < w /\ w < u
+                     /\ \A jx \in 1..n : src[jx] >= echoAt => src[jx] > u
+                     /\ (term # "U" => tT > echoAt)
+EchoSampleMay(u)  == /\ u \in TicksMay /\ u >= echoAt /\ LiveMay(u)
+                     /\ ~\E w \in TicksMust : echoAt < w /\ w < u
+                     /\ \A jx \in 1..n : src[jx] > echoAt => src[jx] >= u
+\* debounce / throttle_with_mapper: emitted dd after the push iff nothing newer arrives within dd; flushed by a completion
+EchoDelayMust(dd) == IF \A jx \in 1..n : src[jx] < echoAt
+                     THEN CASE term = "U" -> echoAt + dd
+                            [] term = "C" /\ tT > echoAt -> Min2(tT, echoAt + dd)
+                            [] term = "E" /\ tT > echoAt + dd -> echoAt + dd
+                            [] OTHER -> NEVER
+                     ELSE NEVER
+EchoDebounceMust == EchoDelayMust(D)
+EchoThrottleMust == IF par.m[Echo].k \in {"N", "C"} THEN EchoDelayMust(par.m[Echo].t) ELSE NEVER
+EchoOK == (Final /\ dsp = NEVER /\ echoAt >= 0) =>
+            /\ Once
+            /\ (op \in {"sample", "sample_obs"} =>
+                 /\ \A u \in TicksMust : EchoSampleMust(u) => (Echo \in EmSet /\ TimeOf(Echo) = u)
+                 /\ (Echo \in EmSet => EchoSampleMay(TimeOf(Echo))))
+            /\ (op = "debounce" =>
+                 /\ (EchoDebounceMust <= Hz => (Echo \in EmSet /\ TimeOf(Echo) = EchoDebounceMust))     \* (NEVER > Hz)
+                 /\ (Echo \in EmSet => TimeOf(Echo) \in {echoAt + D} \cup (IF term = "C" THEN {tT} ELSE {})))
+            /\ (op = "throttle_with_mapper" =>
+                 /\ (EchoThrottleMust <= Hz => (Echo \in EmSet /\ TimeOf(Echo) = EchoThrottleMust))
+                 /\ (Echo \in EmSet => TimeOf(Echo) \in {echoAt + par.m[Echo].t} \cup (IF term = "C" THEN {tT} ELSE {})))
 
 (* ---- export ------------------------------------------------------------------------------------------ *)
 Export == Final => PrintT(ToJson([scn |-> [op |-> op, par |-> par, src |-> src, term |-> term, tT |-> tT, hot |-> hot,
-                                           aux |-> aux, aterm |-> aterm, aT |-> aT, dsp |-> dsp],
-                                  obs |-> [out |-> out, subAt |-> subAt, unsub |-> unsub, swAt |-> swAt, amb |-> amb]]))
+                                           aux |-> aux, aterm |-> aterm, aT |-> aT, dsp |-> dsp, fbk |-> fbk],
+                                  obs |-> [out |-> out, subAt |-> subAt, unsub |-> unsub, swAt |-> swAt, echoAt |-> echoAt, amb |-> amb]]))
 ================================================================================
